@@ -18,7 +18,8 @@ func init() {
 			"(U) unhealthy counter: loop-carried counter with edges {0 initially, +1 on a failed check, 0 on a passed check}, the terminating call is reachable exactly for counter ≥ threshold (truth table), the threshold is clamped to ≥ 1, one check per tick; " +
 			"(S) shutdown: the signal channel registers exactly SIGINT and SIGTERM and is closed by the goroutine that received one; after the signal, with a positive grace period main cancels the polling context, then sleeps for the period, then terminates; otherwise it returns without blocking; the cancel function belongs to the context handed to the poller; " +
 			"(P) polling stops: the list call is only reachable through the default arm of a non-blocking select on pollingCtx.Done() whose other arm returns; " +
-			"(W) workers are independent of the polling context: the polling context is used only for Done()/Err() inside pollForNewRequests (never stored, captured or passed on) and the shared *http.Client is not modified there.",
+			"(W) workers are independent of the polling context: the polling context is used only for Done()/Err() inside pollForNewRequests (never stored, captured or passed on) and the shared *http.Client is not modified there. " +
+			"(P, second part) ListPendingRequests performs exactly one proxy round trip per call, outside any loop, so the cancellation test runs between any two polls.",
 		Assumptions: []string{"os/signal delivers the registered signals; context cancellation is observed by Done()", "log.Fatal terminates the process"},
 		Run:         runC20,
 	})
